@@ -7,6 +7,7 @@
        WriteRefused   the exception class
        Load       the projection of the reactor Database.load returned
        Resave     layout/* of the group written from a loaded reactor
+       (any call)  {"exception": class} when the call raised something the model does not know as a refusal
    and TLC computes what the specification requires:  FileObs(Flatten(live))  resp.  LoadFile(files[s]).
 
    A difference does not stop the history: the verdict is printed per CLAUSE of the statement
@@ -81,8 +82,14 @@ EvResave == /\ A.n = "Resave" /\ loaded[A.h] # NoState /\ files[A.s] = NoFile
                \/ /\ ~Sortable(loaded[A.h]) /\ Say("Resave", "RefusalExpected", {1}) /\ UNCHANGED <<files, snap>>
             /\ act' = [n |-> "Resave", h |-> A.h, s |-> A.s] /\ UNCHANGED <<live, loaded, src>>
 
+\* a legal call that raises anything but a refusal the model knows: a verdict; nothing changes (the driver ends the history)
+Raised == "exception" \in DOMAIN Ev.post /\ A.n # "WriteRefused"
+EvRaised == /\ Raised
+            /\ Say(A.n, "Raised:" \o Ev.post.exception, {1})
+            /\ act' = [n |-> "Raised"] /\ UNCHANGED <<live, files, snap, loaded, src>>
+
 TNext == /\ l <= Len(Traces[tid].ev) /\ l' = l + 1 /\ tid' = tid
-         /\ (EvState \/ EvWrite \/ EvWriteRefused \/ EvLoad \/ EvResave)
+         /\ IF Raised THEN EvRaised ELSE (EvState \/ EvWrite \/ EvWriteRefused \/ EvLoad \/ EvResave)
 TSpec == TInit /\ [][TNext]_<<vars, tid, l>>
 Progress == IF TLCGet(tid) < l THEN TLCSet(tid, l) ELSE TRUE
 Report == LET bad == {t \in 1..NT : TLCGet(t) # Len(Traces[t].ev) + 1} IN
